@@ -1,4 +1,5 @@
 import Upf.Proofs.AgentMarker
+import Upf.Proofs.AgentMarkerMod
 /-!
 # C14 — End markers go to the old tunnel, once
 
@@ -43,6 +44,40 @@ theorem flag_and_port (cfg : Cfg) (f : Far) (w : FwdIE) :
   unfold applyFwd
   cases w.ohc <;> cases w.dst <;> cases hs : w.smreq <;> simp only [hs] <;> repeat' split
   all_goals simp_all
+
+/-! ### at the level of the handler (`Agent.modify` = handleSessionModificationRequest) -/
+
+/-- what a Session Modification emits: with the feature enabled exactly the markers its Update FAR loop collected over the session's
+FARs (stored before this message, plus those the message creates) — they are emitted once the create / update part has been programmed,
+whether or not a later Remove step refuses the request; with the feature disabled, none -/
+theorem modification_emits_exactly (cfg : Cfg) (w : World) (a : Nat) (r : ModReq) (s0 : Session)
+    (h : (w.conn a).sessions.find? (·.lseid = r.seid) = some s0)
+    (cp up : List Pdr) (pool1 pool2 : Option Pool.P) (cf uf : List Far)
+    (hcp : parsePdrs r.seid (fseidIPOf r) (w.conn a).apps r.createPdrs w.pool = .ok (cp, pool1))
+    (hcf : mapFars cfg r.seid (fseidIPOf r) false r.createFars = .ok cf)
+    (hup : parsePdrs r.seid (fseidIPOf r) (w.conn a).apps r.updatePdrs pool1 = .ok (up, pool2))
+    (huf : mapFars cfg r.seid (fseidIPOf r) true r.updateFars = .ok uf) :
+    (modify cfg w a r).markers = if cfg.endMarker then (updFars (s0.fars ++ cf) uf).2.2 else [] :=
+  modify_markers cfg w a r s0 h cp up pool1 pool2 cf uf hcp hcf hup huf
+
+/-- a modification that fails before anything is programmed emits none: unknown session, a Create PDR that does not parse,
+an Update FAR that does not parse -/
+theorem failed_modification_emits_none (cfg : Cfg) (w : World) (a : Nat) (r : ModReq) :
+    ((w.conn a).sessions.find? (·.lseid = r.seid) = none → (modify cfg w a r).markers = []) ∧
+    (∀ e, parsePdrs r.seid (fseidIPOf r) (w.conn a).apps r.createPdrs w.pool = .error e → (modify cfg w a r).markers = []) ∧
+    (∀ e, mapFars cfg r.seid (fseidIPOf r) true r.updateFars = .error e → (modify cfg w a r).markers = []) :=
+  ⟨modify_no_marker_unknown_session cfg w a r, fun e => modify_no_marker_bad_create_pdr cfg w a r e,
+   fun e => modify_no_marker_bad_update_far cfg w a r e⟩
+
+-- non-vacuity: an established session whose downlink FAR forwards to gNB 0xC6120109 / TEID 7; a handover (Update FAR with the flag, new
+-- gNB 0xC612010A / TEID 8) emits one marker to the OLD tunnel, sourced from the access address
+def nvCfg : Cfg := { accessIP := 0xC6120101, coreIP := 0x7F000001, ueAlloc := false, endMarker := true, qci := [] }
+def nvW : World := (establish nvCfg { conns := [(0, { remoteNode := "smf" })] } 0 77
+  { nodeID := "smf", cpSeid := 5001, cpIP := 1,
+    pdrs := [{ id := 1, prec := 1, srcIface := some 1, ueip := some (2, 0x0A3C0001), farID := 1 }],
+    fars := [{ id := 1, action := 2, fwd := some { dst := some 0, ohc := some (7, 0xC6120109) } }], qers := [] }).1
+example : (modify nvCfg nvW 0 { seid := 77, updateFars := [{ id := 1, action := 2, fwd := some { dst := some 0, ohc := some (8, 0xC612010A), smreq := some 2 } }] }).markers
+    = [⟨0xC6120101, 0xC6120109, 7⟩] := by decide +kernel
 
 -- non-vacuity: two flagged updates, one of an unknown FAR
 example : (updFars [{ farID := 2, tunnelIP4Dst := 10, tunnelTEID := 7 }]
